@@ -44,11 +44,16 @@ static mptr mp_from_ptr(struct obj* p) { return p ? (((mptr)(p - pool) + 1) << 2
 #define XV_INIT_guard_ptr(self, v) lfrc_g_ctor((self), (v))
 #define XV_SWAP(a, b) do { mptr xv_t = (a); (a) = (b); (b) = xv_t; } while (0)
 #define G_do_swap(self, g) ((void)0)
-#define O_ref_count(o) ((o).ref_count)
-#define O_self_ref_count(s) ((s)->ref_count)
-#define O_next_free(o) ((o).next_free)
-#define O_refs(o) ((o).ref_count >> 1)              /* header: refs() = ref_count >> 1 */
-#define O_is_destroyed(o) ((o).destroyed)
+/* header accessors: the real one-liners of enable_concurrent_ptr (lowered.h); getHeader() is the identity on this object model */
+#define XV_HDR(self) (self)
+static unsigned lfrc_hdr_refs(struct obj* self); static _Bool lfrc_hdr_is_destroyed(struct obj* self);
+static unsigned* lfrc_hdr_ref_count(struct obj* self); static _Bool* lfrc_hdr_destroyed(struct obj* self); static mptr* lfrc_hdr_next_free(struct obj* self);
+static void lfrc_ecp_ctor(struct obj* self); static void lfrc_ecp_dtor(struct obj* self);
+#define O_ref_count(o) (*lfrc_hdr_ref_count(&(o)))
+#define O_self_ref_count(s) (*lfrc_hdr_ref_count(s))
+#define O_next_free(o) (*lfrc_hdr_next_free(&(o)))
+#define O_refs(o) lfrc_hdr_refs(&(o))
+#define O_is_destroyed(o) lfrc_hdr_is_destroyed(&(o))
 static mptr nondet_word(void) { mptr w = nondet_uptr(); XV_ASSUME((w >> 2) <= NP); return w; }
 static int idx_of(struct obj* o) { return o ? (int)(o - pool) : -1; }
 
@@ -197,7 +202,8 @@ static _Bool stub_decrement(struct obj* o) {
 static void stub_destroy(struct obj* o) {
   int k = idx_of(o);
   XV_OBL("lfrc.reset.destroy_iff_claimed", k >= 0 && claim_pending == k && !o->destroyed);
-  n_destroy[k]++; destroy_clock[k] = ++xv_clock; o->destroyed = 1;      /* ~enable_concurrent_ptr sets destroyed */
+  n_destroy[k]++; destroy_clock[k] = ++xv_clock; lfrc_ecp_dtor(o);      /* p->~T() ends with the real ~enable_concurrent_ptr (lowered text) */
+  XV_OBL("lfrc.reset.destroy_iff_claimed", o->destroyed);
 }
 static void stub_push_to_free_list(struct obj* o) {
   int k = idx_of(o);
@@ -696,4 +702,15 @@ void h_op_new_composed(void) {
   }
   if (!(reuse && k == 0)) XV_OBL("lfrc.freelist.conserve", pool[k].ref_count == in_rc0[k] && pool[k].next_free == nf0[k]);
   XV_OBL("lfrc.freelist.conserve", n_destroy[k] == 0 && n_push[k] == 0 && n_add_nodes == 0 && my_refs[k] == ((reuse && in_where == 1 && k == 0) ? 1 : 0));
+}
+
+/* header accessors, constructor and destructor of enable_concurrent_ptr (real text) */
+void h_hdr(void) {
+  struct obj o; o.ref_count = nondet_uint(); o.destroyed = nondet_bool(); o.next_free = nondet_word();
+  unsigned rc = o.ref_count; mptr nf = o.next_free; _Bool d = o.destroyed;
+  XV_OBL("lfrc.header.accessors", lfrc_hdr_refs(&o) == COUNT(rc) && lfrc_hdr_is_destroyed(&o) == d);       /* refs() drops the claim bit and nothing else (layout: lfrc.layout) */
+  XV_OBL("lfrc.header.accessors", lfrc_hdr_ref_count(&o) == &o.ref_count && lfrc_hdr_destroyed(&o) == &o.destroyed && lfrc_hdr_next_free(&o) == &o.next_free);
+  XV_OBL("lfrc.header.accessors", o.ref_count == rc && o.next_free == nf && o.destroyed == d);
+  if (nondet_bool()) { lfrc_ecp_ctor(&o); XV_OBL("lfrc.header.accessors", !o.destroyed && o.ref_count == rc && o.next_free == nf); XV_CANARY("hdr.ctor"); }
+  else { XV_ASSUME(!d); lfrc_ecp_dtor(&o); XV_OBL("lfrc.header.accessors", o.destroyed && o.ref_count == rc && o.next_free == nf); XV_CANARY("hdr.dtor"); }
 }
